@@ -183,6 +183,7 @@ type HarnessResult struct {
 	Forks     int            `json:"forks"`
 	Queries   int            `json:"queries"`
 	AssertQ   int            `json:"assertion_queries"`
+	AbsHits   int            `json:"branches_decided_by_simplifier"`
 	Sat       int            `json:"sat"`
 	Unsat     int            `json:"unsat"`
 	Unknown   int            `json:"unknown"`
@@ -228,7 +229,8 @@ func exploreHarness(prog *ssa.Program, fn *ssa.Function, inits []*ssa.Function, 
 	for i := range engines {
 		e := &Engine{prog: prog, solver: NewSolver(opts.SolverBin, opts.TimeoutMs), sh: sh, outcomes: map[string]int{},
 			reach: map[string]int{}, asserts: map[string]int{}, maxSteps: opts.MaxSteps, funcsSeen: map[*ssa.Function]bool{},
-			verbose: opts.Verbose, harness: fn.Name(), tier: opts.Tier, pin: opts.Pin, maxSwitch: opts.MaxSwitch}
+			verbose: opts.Verbose, harness: fn.Name(), tier: opts.Tier, pin: opts.Pin, maxSwitch: opts.MaxSwitch,
+			noAbs: os.Getenv("VERIF_NOABS") != "", audit: os.Getenv("VERIF_AUDIT") != ""}
 		if opts.SmtLog != "" && i == 0 {
 			lf, _ := os.Create(opts.SmtLog)
 			e.solver.log = lf
@@ -279,6 +281,7 @@ func exploreHarness(prog *ssa.Program, fn *ssa.Function, inits []*ssa.Function, 
 		res.Forks += e.forks
 		res.Queries += e.solver.Queries
 		res.AssertQ += e.assertQ
+		res.AbsHits += e.absHits
 		res.Sat += e.solver.Sat
 		res.Unsat += e.solver.Unsat
 		res.Unknown += e.solver.Unknown
